@@ -1621,7 +1621,7 @@ func (e *Enc) envAt(fr *Frame, st *State, head *ssa.BasicBlock) *evalEnv {
 	}
 	if head != nil {
 		for _, in := range head.Instrs {
-			if nx, ok := in.(*ssa.Next); ok && nx.IsString {
+			if nx, ok := in.(*ssa.Next); ok && (nx.IsString || e.completeMapRange(nx)) {
 				if c, ok := fr.rangeCount[nx.Iter.(*ssa.Range)]; ok {
 					env.vars["rangeidx"] = SV{t: c, typ: types.Typ[types.Int]}
 				}
